@@ -885,6 +885,52 @@ theorem C20_seq_axis_not_carried_counterexample :
 
 end SeqAxis
 
+/-! ## Constructors: an omitted argument IS its documented default (improvement round f; NOT counted)
+
+The model of the constructors (`SingleArgs.resolve`, `MultiArgs.resolve`, `mkDot` / `mkGeneral` / `mkConcat`) keeps
+only the RESOLVED configuration — there is no "was the argument passed" state, so these statements are true by
+the model's definition (`rfl`; same rule as `C20_nomask` / `C20_bias_exact`: kept, not in `obligations`).  What
+ties them to the library is the correspondence: the driver resolves the constructor arguments of every generated
+case AS SPELLED (omitted / `None` = `null`) with these functions, the harness compares the configuration the
+constructed module shows (`dim`, `scale_factor`, bias presence, hidden size, `d_v`, `out_size`, `d_q`, `d_k`, rows
+of the four projections) and every output with the model, and the predicate `C20.ctor` compares modules built
+from differently spelled argument lists with each other.  `C20_ctor_default_dot_head_scores` is the clause the
+seeded change C20-f2 broke, for the model: a wrapped dot-product module built WITHOUT a `scale_factor` scores each
+head with the plain dot product of the head slices (no `d_k ^ (-1/2)`). -/
+section Ctor
+variable {κ : Type}
+
+/-- The same arguments with every omitted one written out as its documented default. -/
+def SingleArgs.explicit (one : κ) (a : SingleArgs κ) : SingleArgs κ :=
+  { dim := some (a.dim.getD 0), scaleFactor := some (a.scaleFactor.getD one),
+    bias := some (a.bias.getD false), hiddenSize := some (a.hiddenSize.getD 1000) }
+
+def MultiArgs.explicit (valueSize numHeads : Nat) (a : MultiArgs) : MultiArgs :=
+  { outSize := some (a.outSize.getD valueSize), dv := some (a.dv.getD (max 1 (valueSize / numHeads))),
+    biasWQ := some (a.biasWQ.getD false), biasWK := some (a.biasWK.getD false),
+    biasWV := some (a.biasWV.getD false), biasWC := some (a.biasWC.getD false) }
+
+theorem C20_ctor_single_omitted_eq_default (one : κ) (a : SingleArgs κ) :
+    (a.explicit one).resolve one = a.resolve one := rfl
+
+theorem C20_ctor_multi_omitted_eq_default (valueSize numHeads : Nat) (a : MultiArgs) :
+    (a.explicit valueSize numHeads).resolve valueSize numHeads = a.resolve valueSize numHeads := rfl
+
+theorem C20_ctor_default_dot_head_scores [Field κ] (th : κ → κ) (m : MHA κ) (dim : Option Int)
+    (hin : m.inner = mkDot (({ dim := dim } : SingleArgs κ).resolve 1))
+    (q : List κ) (ks : List (List κ)) (h : Nat) :
+    mhaHeadScores th m q ks h =
+      ks.map (fun k => dot ((unflatten m.numHeads m.dq (linear m.WQ m.bQ q)).getD h [])
+        ((unflatten m.numHeads m.dk (linear m.WK m.bK k)).getD h [])) := by
+  simp [mhaHeadScores, hin, mkDot, SingleArgs.resolve, score, List.map_map, Function.comp_def]
+
+example : (({} : SingleArgs Rat).resolve 1).scaleFactor = 1 ∧ (({} : SingleArgs Rat).resolve 1).dim = 0 ∧
+    (({} : SingleArgs Rat).resolve 1).hiddenSize = 1000 ∧ (({} : SingleArgs Rat).resolve 1).bias = false := by
+  decide
+example : (({} : MultiArgs).resolve 7 2).dv = 3 ∧ (({} : MultiArgs).resolve 7 2).outSize = 7 ∧
+    (({} : MultiArgs).resolve 1 3).dv = 1 ∧ (({ dv := some 5 } : MultiArgs).resolve 7 2).dv = 5 := by decide
+end Ctor
+
 /-! ## Non-vacuity: the hypotheses are satisfiable on concrete, non-trivial inputs -/
 section Examples
 
